@@ -627,7 +627,10 @@ def ill_conditioned(P, n_iter, params, data, param_data, obs_data, opt_state, wa
         d = np.abs(a - b)
         d = d[~np.isnan(d)]
         spread_l = max(spread_l, float(d.max()) if d.size else 0.0)
-        spread_p = max(spread_p, maxdiff(R.final_params, R2.final_params))
+        # both the last parameters and the last NaN-free ones (what solve returns after an abort)
+        spread_p = max(spread_p, maxdiff(R.final_params, R2.final_params), maxdiff(R.params, R2.params))
+        if not tree_close(R.params, R2.params, scale):
+            return True
     if observed is not None:
         obs_p, obs_l = observed
         if obs_p and spread_p >= 0.1 * obs_p:
@@ -655,12 +658,32 @@ def close(a, b, scale=1.0):
     return bool(np.allclose(a, b, rtol=rt * scale, atol=at * scale, equal_nan=True))
 
 
+def leaf_close(a, b, scale=1.0):
+    """Closeness of two parameter tensors in the norm-wise sense: the error of every entry is measured
+    against the largest entry of the tensor (rounding errors of a weight matrix are carried by all its
+    entries), NaN == NaN and Inf == Inf."""
+    a, b = np.asarray(a, dtype=np.float64), np.asarray(b, dtype=np.float64)
+    if a.shape != b.shape:
+        return False
+    if a.size == 0:
+        return True
+    if not np.array_equal(np.isnan(a), np.isnan(b)) or not np.array_equal(np.isposinf(a), np.isposinf(b)) \
+            or not np.array_equal(np.isneginf(a), np.isneginf(b)):
+        return False
+    fin = np.isfinite(a) & np.isfinite(b)
+    if not fin.any():
+        return True
+    rt, at = tol()
+    bound = at * scale + rt * scale * float(np.max(np.abs(b[fin])))
+    return bool(np.max(np.abs(a[fin] - b[fin])) <= bound)
+
+
 def tree_close(a, b, scale=1.0):
     la, ta = jax.tree_util.tree_flatten(a)
     lb, tb = jax.tree_util.tree_flatten(b)
     if ta != tb:
         return False
-    return all(close(x, y, scale) for x, y in zip(la, lb))
+    return all(leaf_close(x, y, scale) for x, y in zip(la, lb))
 
 
 def tree_equal(a, b):
